@@ -46,6 +46,10 @@ def cases(tier, seed, phase):
     for ws in (['ok', 'ok'], ['ok', 'qe'], ['qe552'], ['ok', 'exc']):
         yield {'edge': 'wsgi-loopback', 'kind': 'queue', 'writes': ws, 'slow': None}
     yield {'edge': 'wsgi-loopback', 'kind': 'proxy', 'relay': 'map:ok.550', 'n': 2}
+    for refuse in ('none', 'uri', 'verb', 'ctype', 'ehlo', 'sender', 'rcpt', 'custom'):
+        for validators in (True, False):
+            for uri in (True, False):
+                yield {'kind': 'wsgi-gate', 'edge': 'wsgi', 'refuse': refuse, 'validators': validators, 'uri': uri}
     for j in range(30 if tier == 'quick' else 600):
         rng = rng_for(seed, 'c02c', j)
         yield {'kind': 'concurrent', 'edge': 'smtp', 'nclients': rng.choice([2, 2, 3]), 'ndomains': rng.choice([1, 2, 3]),
@@ -281,6 +285,63 @@ def snapshot_store(state):
     return sorted(tuple(env.recipients) for env in st.env_db.values())
 
 
+def run_wsgi_gate(case, model):
+    """The HTTP edge with its optional gates: a URI pattern, the verb, the content type, a validator class refusing the EHLO string,
+    the sender, a recipient or a custom header. A request that a gate refuses gets a non-2xx status and nothing is enqueued; a request
+    that passes them all is enqueued once and answered 2xx."""
+    from slimta.edge.wsgi import WsgiEdge, WsgiValidators, WsgiResponse
+    got = []
+
+    class Q(object):
+        def enqueue(self, envelope):
+            got.append((envelope.sender, list(envelope.recipients)))
+            return [(envelope, 'id1')]
+    refuse = case['refuse']
+
+    class V(WsgiValidators):
+        custom_headers = ['X-Custom-Header']
+
+        def validate_ehlo(self, ehlo):
+            if refuse == 'ehlo':
+                raise WsgiResponse('403 Forbidden')
+
+        def validate_sender(self, sender):
+            if refuse == 'sender':
+                raise WsgiResponse('403 Forbidden')
+
+        def validate_recipient(self, recipient):
+            if refuse == 'rcpt' and recipient == 'user1@domain1.example':
+                raise WsgiResponse('403 Forbidden')
+
+        def validate_custom(self, name, value):
+            if refuse == 'custom' and value != 'expected':
+                raise WsgiResponse('400 Bad Request')
+    edge = WsgiEdge(Q(), hostname='edge.example', validator_class=V if case['validators'] else None,
+                    uri_pattern=r'^/inbox/' if case['uri'] else None)
+    environ, _ = wsgi_environ({'kind': 'queue', 'writes': ['ok', 'ok']})
+    environ['PATH_INFO'] = '/inbox/x' if refuse != 'uri' else '/elsewhere'
+    if refuse == 'verb':
+        environ['REQUEST_METHOD'] = 'GET'
+    if refuse == 'ctype':
+        environ['CONTENT_TYPE'] = 'text/plain'
+    environ['HTTP_X_CUSTOM_HEADER'] = 'expected' if refuse != 'custom' else 'something else'
+    box = {}
+    try:
+        edge(environ, lambda status, headers: box.setdefault('status', status))
+    except BaseException:
+        box.setdefault('status', '500 the WSGI application raised')
+    code = int(box.get('status', '0').split()[0])
+    refused = refuse in ('verb', 'ctype') or (refuse == 'uri' and case['uri']) or (refuse in ('ehlo', 'sender', 'rcpt', 'custom') and case['validators'])
+    hits = []
+    if refused and (code // 100 == 2 or got):
+        hits.append(hit('c02.wsgi-gate-passed.' + refuse, 'the HTTP edge accepted (or enqueued) a request that its %s gate refuses' % refuse,
+                        observed={'status': box.get('status'), 'enqueued': got}))
+    if not refused and (code // 100 != 2 or len(got) != 1 or got[0] != ('sender@example.com', ['user0@domain0.example', 'user1@domain1.example'])):
+        hits.append(hit('c02.wsgi-gate-refused-good-request', 'a request that passes every gate was not enqueued once and answered 2xx',
+                        observed={'status': box.get('status'), 'enqueued': got}))
+    return CaseResult(None, hits, ('wsgi-gate', refuse, case['validators'], case['uri']), ['wsgi-gate'])
+
+
 def run_concurrent(case, model):
     """Several SMTP deliveries in flight at the same edge and Queue at once; a queue policy and the storage writes yield (as a content
     scanner and a networked store do). Every message answered 2xx must be in storage: each of its recipients once, with its own sender."""
@@ -363,6 +424,8 @@ def run_concurrent(case, model):
 
 
 def run_case(case, model):
+    if case.get('kind') == 'wsgi-gate':
+        return run_wsgi_gate(case, model)
     if case.get('kind') == 'concurrent':
         return run_concurrent(case, model)
     import gevent
